@@ -13,7 +13,7 @@ ANCHORS = ['numdifftools.core:Jacobian._expand_steps', 'numdifftools.core:Jacobi
            'numdifftools.core:directionaldiff', 'numdifftools.finite_difference:JacobianDifferenceFunctions.increments']
 MIN_COUNTERS = dict(quick={'jacobian_shape_asserted': 1200, 'affine_entries_asserted': 5000, 'smooth_entries_asserted': 2000,
                            'matrix_valued_asserted': 200, 'gradient_asserted': 200, 'directionaldiff_asserted': 150,
-                           'length_one_output_cases': 100},
+                           'length_one_output_cases': 100, 'nested_gradient_cases': 40},
                     thorough={'affine_entries_asserted': 200000})
 RULE = ('x also as list / tuple / plain float, Python ints with integer affine maps, float32 arrays. ' 
         'n in 1..8, m in 1..6, k in 1..4; families: affine A x + b (f returns a length-m vector, including m = 1), matrix-valued '
@@ -39,7 +39,7 @@ def setup(ctx, mon):
 def cases(rng, tier, shard, nshards):
     for i in range(BUDGET[tier] // nshards):
         u = rng.random()
-        kind = 'affine' if u < 0.4 else 'smooth' if u < 0.65 else 'matrix' if u < 0.75 else 'gradient' if u < 0.88 else 'ddiff'
+        kind = 'affine' if u < 0.4 else 'smooth' if u < 0.65 else 'matrix' if u < 0.75 else 'gradient' if u < 0.86 else 'ddiff' if u < 0.97 else 'nested'
         n = int(rng.integers(1, 9))
         yield dict(kind=kind, n=n, m=int(rng.integers(1, 7)), k=int(rng.integers(1, 5)), method=METHODS[i % 5],
                    order=int(rng.choice([2, 4])), seed=int(rng.integers(0, 2 ** 31)),
@@ -91,10 +91,51 @@ def _as_given(x, case, ctx, salt=0):
     return np.array(x, copy=True)
 
 
+def run_nested(case, ctx, nd, rng):
+    """f: R^n -> R^n is itself a numerical gradient (the Hessian-by-nesting idiom): f = Gradient(g), Jacobian(f)(x) is the
+    Hessian of g.  The inner object differentiates a function of the same number of variables while the outer call is in
+    progress; the inner method is a real-step one or the complex step, the outer one any method whose points stay real."""
+    n = min(case['n'], 4)
+    method = case['method'] if case['method'] in ('central', 'forward', 'backward') else 'central'
+    order = case['order']
+    inner_method = ['central', 'complex', 'forward'][case['seed'] % 3]
+    x = rng.choice([-1, 1], size=n) * np.round(rng.uniform(0.2, 1.5, size=n), 3)
+    Q = np.round(rng.normal(size=(n, n)), 2)
+    Q = Q + Q.T
+    c = np.round(rng.normal(size=n) * 0.5, 2)
+
+    def g(z):
+        z = np.asarray(z)
+        return 0.5 * np.dot(z, np.dot(Q, z)) + np.exp(np.dot(c, z))
+    H = Q + np.exp(float(np.dot(c, x))) * np.outer(c, c)
+    inner = nd.Gradient(g, method=inner_method)
+    try:
+        with np.errstate(all='ignore'):
+            J = np.asarray(nd.Jacobian(lambda z: np.atleast_1d(inner(z)), method=method, order=order)(x.copy()), dtype=float)
+    except Exception as exc:
+        ctx.reject('jacobian_raised', observed='%s: %s' % (type(exc).__name__, str(exc)[:150]), kind='nested', method=method, n=n)
+        return
+    ctx.count('nested_gradient_cases')
+    if J.shape != (n, n):
+        ctx.reject('jacobian_shape', observed=list(J.shape), expected=[n, n], kind='nested')
+        return
+    scale = float(np.max(np.abs(H))) + 1.0
+    err = float(np.max(np.abs(J - H)))
+    ctx.maximum('nested_err/scale:%s:%s' % (method, inner_method), err / scale)
+    # (coarse on purpose: the inner gradient carries ~1e-12 of noise which the outer difference quotient amplifies by 1/h)
+    if not err <= 1e-6 * scale:
+        ctx.reject('jacobian_entry', observed=J, expected=H, detail=dict(err=err, inner_method=inner_method), kind='nested',
+                   method=method, n=n, order=order)
+        return
+    ctx.nontrivial((n, n, 0, method, order, 'nested', inner_method))
+
+
 def run_case(case, ctx):
     import numdifftools as nd
     rng = np.random.default_rng(case['seed'])
     kind, n, m, k, method, order = case['kind'], case['n'], case['m'], case['k'], case['method'], case['order']
+    if kind == 'nested':
+        return run_nested(case, ctx, nd, rng)
     x = rng.choice([-1, 1], size=n) * np.round(10.0 ** rng.uniform(-1.5, 0.7, size=n), 4)
     A = np.round(rng.normal(size=(m, n)) * 2, 3)
     A[np.abs(A) < 0.1] = 0.7
